@@ -9,4 +9,11 @@ require (
 	pgregory.net/rapid v1.3.0
 )
 
+require (
+	github.com/fatih/color v1.18.0 // indirect
+	github.com/mattn/go-colorable v0.1.13 // indirect
+	github.com/mattn/go-isatty v0.0.20 // indirect
+	golang.org/x/sys v0.25.0 // indirect
+)
+
 replace github.com/JunNishimura/Goit => /repo
